@@ -592,7 +592,7 @@ fn case3_strategy() -> impl Strategy<Value = Case3> {
 }
 
 pub fn run(ctx: &Ctx, started: Instant) -> i32 {
-    let per_shard = ctx.tier.pick(2_500u32, 62_500);
+    let per_shard = ctx.tier.pick(10_000u32, 125_000);
     let mut stats = par_shards(WORKERS, |shard| {
         let mut st = Stats::default();
         run_proptest(
